@@ -1,6 +1,7 @@
 import PdfModel.Core.Proto
 import PdfModel.Model.Parser
 import PdfModel.Model.ContentLoop
+import PdfModel.Model.ContentLoopEI
 import PdfModel.Model.XrefTable
 import PdfModel.Drv.Obj
 
@@ -15,8 +16,11 @@ import PdfModel.Drv.Obj
   c01.ctx <buf> <pos>              Lexer::ctx               → ok <start> <stop>
   c01.lexeme <buf> <pos>           StringLexer::next_lexeme (fresh lexer on buf[pos..]) → ok <byte|none> <pos> | err
   c01.hexbyte <buf> <pos>          HexStringLexer::next_hex_byte                       → ok <byte|none> <pos> | err
-  c01.inline <buf> <0|1>           inline_image on a content stream that starts with `BI` (cursor 2), error
-                                   kinds: none is EOF; the flag says whether the typed entries convert
+  c01.inline <lf|ei> <buf> <0|1>   inline_image on a content stream that starts with `BI` (cursor 2), error
+                                   kinds: none is EOF; the flag says whether the typed entries convert;
+                                   `lf`: the search `seek_substr("\nEI")` (`inlineImage`), `ei`: the search of repo
+                                   commit 4386f8d, white-space + token `EI` (`inlineImageEI`) — the harness names
+                                   the one that mirrors the code under test (`INLINE_SEARCH` in c01_corr.rs)
                                    → ok <data start> <data stop> <pos> | fail <pos>
   c01.xref <buf> <pos> <lens>      read_xref_and_trailer_at → table <sections> <trailer> <pos> | stream <pos> | err
         sections: `first=e,e;first=…` with e = `f<next>.<gen>` | `n<pos>.<gen>`, `-` = none
@@ -84,13 +88,18 @@ def handle (args : List String) : String :=
     | some buf, some pos =>
       showOut (fun (r : Option UInt8 × Nat) => s!"{showOptByte r.1} {r.2}") (nextHexByte buf pos pos)
     | _, _ => "bad-request"
-  | ["c01.inline", b, ok] =>
+  | ["c01.inline", variant, b, ok] =>
     match bufOf b, boolOf ok with
     | some buf, some imgOk =>
-      match inlineImage (mkEnv false 0 []) buf { noOracle with imgOk := fun _ => imgOk } 2 with
-      | .ok ((true, p), some s) => s!"ok {s.1} {s.2} {p}"
-      | .ok ((_, p), _) => s!"fail {p}"
-      | o => o.tag
+      let o : Oracle := { noOracle with imgOk := fun _ => imgOk }
+      let r := if variant == "lf" then some (inlineImage (mkEnv false 0 []) buf o 2)
+        else if variant == "ei" then some (inlineImageEI (mkEnv false 0 []) buf o 2)
+        else none
+      match r with
+      | some (.ok ((true, p), some s)) => s!"ok {s.1} {s.2} {p}"
+      | some (.ok ((_, p), _)) => s!"fail {p}"
+      | some o => o.tag
+      | none => "bad-request"
     | _, _ => "bad-request"
   | ["c01.xref", b, p, lens] =>
     match bufOf b, natOf p, lenMapOf lens with
